@@ -894,7 +894,7 @@ class Interp:
 
     def e_JoinedStr(self, st, e, fr, k):
         # f-string: evaluate the pieces (they may raise), result is an opaque string unless all constant
-        parts = [v.value if isinstance(v, ast.FormattedValue) else v for v in e.values]
+        parts = [v.value for v in e.values if isinstance(v, ast.FormattedValue)]
         def mk(s2, vals):
             if all(isinstance(p, ast.Constant) for p in e.values):
                 return k(s2, Sym(pystr("".join(p.value for p in e.values))))
